@@ -109,6 +109,12 @@ def run(tier, seed, replay):
                 s2 = seq[:i] + [TOGGLE[seq[i][:2]] + seq[i][2:]] + seq[i + 1:]
                 app_lines.append("proto_app " + ",".join(s2))
                 app_meta.append(("independence-toggle", b, s2))
+        KIND = {"se": "st", "st": "se", "ce": "ct", "ct": "ce", "ie": "it", "it": "ie"}      # the same type at the same position, event <-> trigger
+        for i in range(len(seq)):
+            if seq[i][:2] in KIND:
+                s2 = seq[:i] + [KIND[seq[i][:2]] + seq[i][2:]] + seq[i + 1:]
+                app_lines.append("proto_app " + ",".join(s2))
+                app_meta.append(("event-trigger-kind", b, s2))
     app_out = run_lines(harness_bin("kernels"), app_lines, shards=8) if app_lines else []
     app_model_lines = ["proto " + (o.split(" ", 1)[1] if " " in o else "-") for o in app_out]
     app_model = run_lines(os.path.join(OCAML, "driver"), app_model_lines, shards=8) if app_lines else []
